@@ -81,7 +81,7 @@ def build(spec):
     else:
         raise KeyError(tree)
     fee = T.fee_fn(spec.get("fee"))
-    b = bt.Backtest(s, data, initial_capital=float(spec.get("capital", 1024.0)), commissions=fee, integer_positions=bool(spec.get("integer", True)), progress_bar=False, additional_data=addl)
+    b = bt.Backtest(s, data, initial_capital=float(spec.get("capital", 1024.0)), commissions=fee, integer_positions=bool(spec.get("integer", True)), progress_bar=bool(spec.get("progress_bar", False)), additional_data=addl)
     return b, data
 
 
@@ -91,7 +91,10 @@ def case(spec):
     viols = []
     try:
         b, data = build(spec)
-        b.run()
+        import contextlib, io
+
+        with contextlib.redirect_stderr(io.StringIO()), contextlib.redirect_stdout(io.StringIO()):
+            b.run()
     except Exception as e:
         if rt.classify(e) == "guard":
             return ("refused", [], None)
@@ -101,6 +104,8 @@ def case(spec):
     secs = [n for n in root.members if isinstance(n, bt.core.SecurityBase)]
     labels = [str(x) for x in root.values.index]
     nd = len(labels)
+    if nd != len(data.index) + 1 or str(root.now) != str(data.index[-1]):
+        viols.append({"rule": "run_covers_every_date", "expected": {"dates": len(data.index) + 1, "last": str(data.index[-1])}, "observed": {"dates": nd, "now": str(root.now)}})
     cash = {s.full_name: [float(x) for x in s.cash.values] for s in strategies}
     pos = {x.full_name: [float(v) for v in x.positions.values] for x in secs}
     vals = [float(v) for v in root.values.values]
@@ -231,6 +236,10 @@ def specs(tier, seed):
             for tree in ("flat", "nested"):
                 for integer in (True, False):
                     out.append({"tree": tree, "gate": "once", "lev": list(lev), "path": list(path), "integer": integer, "fee": None, "scale": 1.0, "capital": 1024.0})
+    # with the progress bar switched on (it has a code path of its own around the bankruptcy)
+    for path in ((8, 8, 8, 8), (4, 8, 2, 8), (2, 2, 8, 8)):
+        for tree in ("flat", "nested"):
+            out.append({"tree": tree, "gate": "once", "lev": [-2.0, 3.0], "path": list(path), "integer": True, "fee": None, "scale": 1.0, "capital": 1024.0, "progress_bar": True, "rerun": False})
     # market-value root levered in a coupon-paying security
     for path in itertools.product([4, 5, 6], repeat=3):
         for cp in (1.0, -1.0, 0.25, -2.0):
